@@ -6,6 +6,7 @@ import VncModel.Enc.SplitProofs
 import VncModel.Enc.HextileBuf
 import VncModel.Enc.Pack24
 import VncModel.Enc.TightSearch
+import VncModel.Enc.Session
 import VncModel.Gen.C01
 /-!
 # C01 — Lossless encodings reproduce the server framebuffer pixel-exactly
@@ -214,6 +215,23 @@ theorem zlib_sequence_decodes {σ τ : Type} (Z : ZLaw σ τ) (bpp : Nat)
     (h : ∀ r ∈ rects, r.2.length = r.1.w * r.1.h ∧ ∀ p ∈ r.2, PixOK bpp p) :
     clientZlibSeq Z bpp t ((rects.map (·.1)).zip (serverZlibSeq Z bpp s rects)) = some (rects.map (·.2)) :=
   zlibSeq_decodes Z bpp rects s t hs h
+
+/-- the decoder keeps ONE inflate state per stream for the whole connection (Zlib 1, ZRLE 1, Tight 4):
+for every interleaving of chunks on the streams it recovers every chunk — its state for a stream is
+determined by all bytes sent on that stream so far, so an encoder may never restart a stream on its own -/
+theorem streams_persist_for_connection {σ τ : Type} (Z : ZLaw σ τ) (evs : List (Nat × Bytes))
+    (ss : Nat → σ) (ts : Nat → τ) (h : ∀ i, Z.Sync (ss i) (ts i)) :
+    cliRun Z ts (srvRun Z ss evs) = some (evs.map (·.2)) :=
+  streams_persist Z evs ss ts h
+
+/-- model of the Zlib encoder's connection state (`compStreamInited`, `compStream`,
+`zlibCompressLevel`: SetEncodings only stores the level, the stream is created lazily once): for EVERY
+sequence of SetEncodings (any levels, other encodings in between) and rectangles, one persistent
+decoder stream decodes every Zlib rectangle -/
+theorem zlib_session_persistent_stream {σ τ : Type} (Z : ZInit σ τ) (bpp : Nat) (evs : List ZlibEv) (lvl0 : Nat)
+    (h : ∀ r ∈ rectsOf evs, r.2.length = r.1.w * r.1.h ∧ ∀ p ∈ r.2, PixOK bpp p) :
+    clientZlibSeq Z.toZLaw bpp Z.tinit (zlibSession Z bpp ⟨none, lvl0⟩ evs) = some ((rectsOf evs).map (·.2)) :=
+  zlib_session_decodes Z bpp evs lvl0 h
 
 /-- a whole update: if each rectangle's payload decodes on its own, the concatenated stream (which
 by the flush lemmas is what the peer receives) decodes rectangle by rectangle. -/
